@@ -37,6 +37,7 @@ def runPolls : St → List (Option Nat) → List Json → List Json
 
 def runCase (j : Json) : Except String Json := do
   let c ← j.getObjVal? "case"
+  if (jopt c "howl").isSome then return Json.mkObj [("id", j.getObjValD "id"), ("model", Json.null)]      -- the real `howl` under a real signal: judged on the implementation alone
   match jopt c "wg" with
   | some w =>
     let ops ← (← w.getArr?).toList.mapM fun o => do
